@@ -19,7 +19,7 @@ from ..core import Stats, exc_site, exc_text
 from ..harness import Compiled, cs_compile, np_step
 from ..netgen import MODEL_PARAMS, all_specs, harness_specs
 from ..parallel import run_shards, shards_of
-from ..spec import NetSpec
+from ..spec import NetSpec, build_edited
 from .. import refmodel, valgen
 
 
@@ -80,8 +80,15 @@ def check_spec(spec: NetSpec, label, st: Stats, plan):
             st.inc("transitions", 2)
             st.inc("executions")
             case = {"spec": spec.describe(), "config": label, "P": P, "engine": sym}
-            try:
-                F, built, eng = cs_compile(spec, sym, P, compact=0)
+            variants = [("fresh", None)] + ([("edited-links", "links"), ("edited-attachments", "attachments"), ("edited-replace", "replace")] if plan.get("edited") else [])
+            for vname, emode in variants:
+              try:
+                if emode is None:
+                    F, built, eng = cs_compile(spec, sym, P, compact=0)
+                else:
+                    eng0 = env.casadi_engine(sym)
+                    F, built, eng = cs_compile(spec, sym, P, compact=0, built=build_edited(spec, P, emode, engine=eng0))
+                    st.inc("executions")
                 comp = Compiled(F, built)
                 for oi, oslot in enumerate(comp.out_slots):
                     for ii, islot in enumerate(comp.in_slots):
@@ -94,10 +101,10 @@ def check_spec(spec: NetSpec, label, st: Stats, plan):
                             st.inc("observed_bits")
                             if inc not in A[outc]:
                                 problems.append((sig_for(spec, sym, outc, inc),
-                                                 f"{sym}: next {outc[1]}[{outc[2]}] of {outc[0]} depends structurally on "
-                                                 f"{inc[1]}[{inc[2]}] of {inc[0]}", dict(case, out=outc, inp=inc)))
-            except Exception as e:  # noqa: BLE001
-                problems.append((f"C10/exception/{exc_site(e)}/{type(e).__name__}", f"{sym}: {exc_text(e)}", case))
+                                                 f"{sym} ({vname} network): next {outc[1]}[{outc[2]}] of {outc[0]} depends structurally on "
+                                                 f"{inc[1]}[{inc[2]}] of {inc[0]}", dict(case, out=outc, inp=inc, variant=vname)))
+              except Exception as e:  # noqa: BLE001
+                problems.append((f"C10/exception/{exc_site(e)}/{type(e).__name__}", f"{sym} ({vname} network): {exc_text(e)}", case))
         # (b) numeric perturbation, NumPy engine -------------------------------------------
         if plan["np"]:
             for b in (0, 1):
@@ -151,6 +158,7 @@ def plans(tier, seed):
     pal = (seed + 2) % 3
     if tier == "quick":
         jobs = [({"psets": [0, 1], "cs_sym": ["SX", "MX"], "np": False}, [(lab, s) for _, lab, s in all_specs(3, 4, 1, pal)]),
+                ({"psets": [0], "cs_sym": ["SX"], "np": False, "edited": True}, [(lab, s) for _, lab, s in all_specs(3, 3, 1, pal)]),
                 ({"psets": [0], "cs_sym": [], "np": True}, [(lab, s) for _, lab, s in all_specs(3, 3, 0, pal)])]
         bounds = {"structural": "(n,m)<=(3,4), c<=1, SX and MX, with and without delta/phi",
                   "numeric_numpy": "(n,m)<=(3,3), base+uniform configurations, d=1 over the alphabets, 2 base vectors",
@@ -160,6 +168,7 @@ def plans(tier, seed):
         b = [(lab, s) for _, lab, s in all_specs(4, 5, 1, pal) if s.n == 4]
         c = [(lab, s) for _, lab, s in all_specs(3, 4, 1, pal)]
         jobs = [({"psets": [0, 1], "cs_sym": ["SX", "MX"], "np": False}, a + b),
+                ({"psets": [0, 1], "cs_sym": ["SX", "MX"], "np": False, "edited": True}, c),
                 ({"psets": [0, 1], "cs_sym": [], "np": True}, c)]
         bounds = {"structural": "(3,4) c<=2 and 4-node shapes (4,5) c<=1, SX and MX, with and without delta/phi",
                   "numeric_numpy": "(n,m)<=(3,4), c<=1, d=1, 2 base vectors", "palette": pal}
